@@ -239,6 +239,10 @@ fn float_midpoints(ctx: &mut Ctx, n: usize) {
         let body = place_point(&digits, k);
         check_literal(ctx, &format!("f{sign}{body}"), &Want::Val(Value::Float(sgn(tie_winner))), "float-exact-midpoint-ties-to-even");
         check_literal(ctx, &format!("f{sign}{body}000000000000000000001"), &Want::Val(Value::Float(sgn(next))), "float-just-above-midpoint");
+        // the deciding digit far out: hundreds or thousands of zeros after the exact midpoint, then a 1 (still just above it)
+        let far = [40usize, 300, 760, 800, 1_100, 5_000][rng.below(6)];
+        check_literal(ctx, &format!("f{sign}{body}{}1", "0".repeat(far)), &Want::Val(Value::Float(sgn(next))), "float-just-above-midpoint-deciding-digit-far-out");
+        check_literal(ctx, &format!("f{sign}{body}{}", "0".repeat(far)), &Want::Val(Value::Float(sgn(tie_winner))), "float-exact-midpoint-with-trailing-zeros");
         let below = (mid * 10 - 1).to_string();
         check_literal(ctx, &format!("f{sign}{}", place_point(&below, k + 1)), &Want::Val(Value::Float(sgn(x))), "float-just-below-midpoint");
     }
